@@ -1,6 +1,6 @@
 //! Cases, the executor (real `MysqlIntermediary::run_on` under catch_unwind) and observations.
-use crate::shim::{DefaultInitShim, Script, ScriptShim, ShimErr, ShimLog};
-use crate::transport::{Fault, Gate, MemTransport, Sched, World};
+use crate::shim::{DefaultInitShim, MinimalShim, Script, ScriptShim, ShimErr, ShimLog};
+use crate::transport::{Clock, Fault, Gate, MemTransport, Sched, World};
 use crate::util::*;
 use crate::wire::{self, Kind};
 use msql_srv::MysqlIntermediary;
@@ -171,6 +171,10 @@ pub struct Case {
     pub tls: Option<Arc<rustls::ServerConfig>>,
     pub auth_reject: Option<u64>,
     pub default_init: bool,
+    /// the shim implements only the four required methods (all trait defaults in force)
+    pub minimal_shim: bool,
+    /// enter through `run_on_stream` (the transport is Clone) instead of `run_on`
+    pub via_run_on_stream: bool,
     pub conv: bool,
     pub log_reads: bool,
     /// 0 = derive from input size
@@ -197,6 +201,8 @@ impl Case {
             tls: None,
             auth_reject: None,
             default_init: false,
+            minimal_shim: false,
+            via_run_on_stream: false,
             conv: false,
             log_reads: true,
             budget_ops: 0,
@@ -289,9 +295,15 @@ pub fn run_case(case: &Case) -> Obs {
     let _ = take_panic();
     let t = MemTransport(world.clone());
     let default_init = case.default_init;
+    let minimal = case.minimal_shim;
+    let via_stream = case.via_run_on_stream;
     let r = catch_unwind(AssertUnwindSafe(move || {
-        if default_init {
+        if minimal {
+            MysqlIntermediary::run_on(MinimalShim(shim), t)
+        } else if default_init {
             MysqlIntermediary::run_on(DefaultInitShim(shim), t)
+        } else if via_stream {
+            MysqlIntermediary::run_on_stream(shim, t)
         } else {
             MysqlIntermediary::run_on(shim, t)
         }
@@ -315,6 +327,66 @@ pub fn run_case(case: &Case) -> Obs {
     let ssl_bit = hs.len() >= 2 && (u16::from_le_bytes([hs[0], hs[1]]) as u32 & wire::CLIENT_PROTOCOL_41 != 0) && (u16::from_le_bytes([hs[0], hs[1]]) as u32 & wire::CLIENT_SSL != 0);
     let tls_upgrade_requested = case.tls.is_some() && case.raw_input.is_none() && ssl_bit;
     Obs { outcome, world, log, ends, kinds, tls_upgrade_requested }
+}
+
+/// What a real TCP peer on the loopback interface saw: the same scripted conversation served by
+/// `run_on_tcp` over a kernel socket (the kernel decides the chunking; one client thread writes,
+/// another reads until the server closes).
+pub struct TcpObs {
+    pub outcome: Outcome,
+    pub output: Vec<u8>,
+    pub log: ShimLog,
+}
+
+pub fn run_case_tcp(case: &Case) -> Result<TcpObs, String> {
+    use std::io::{Read as _, Write as _};
+    let (input, _) = case.input();
+    let listener = std::net::TcpListener::bind("127.0.0.1:0").map_err(|e| format!("bind: {}", e))?;
+    let addr = listener.local_addr().map_err(|e| e.to_string())?;
+    let client = std::thread::spawn(move || -> Result<Vec<u8>, String> {
+        let c = std::net::TcpStream::connect(addr).map_err(|e| format!("connect: {}", e))?;
+        let _ = c.set_read_timeout(Some(std::time::Duration::from_secs(120)));
+        let _ = c.set_write_timeout(Some(std::time::Duration::from_secs(120)));
+        let mut w = c.try_clone().map_err(|e| e.to_string())?;
+        let writer = std::thread::spawn(move || {
+            // an error here only means that the server went away early (refusals, malformed input)
+            let _ = w.write_all(&input);
+            let _ = w.shutdown(std::net::Shutdown::Write);
+        });
+        let mut out = Vec::new();
+        let mut r = c;
+        let mut buf = vec![0u8; 1 << 16];
+        loop {
+            match r.read(&mut buf) {
+                Ok(0) => break,
+                Ok(n) => out.extend_from_slice(&buf[..n]),
+                Err(e) if e.kind() == io::ErrorKind::ConnectionReset => break,
+                Err(e) => return Err(format!("client read: {}", e)),
+            }
+        }
+        let _ = writer.join();
+        Ok(out)
+    });
+    let (stream, _) = listener.accept().map_err(|e| format!("accept: {}", e))?;
+    let _ = stream.set_read_timeout(Some(std::time::Duration::from_secs(120)));
+    let clock: Clock = Rc::new(std::cell::Cell::new(0));
+    let (mut shim, log) = ScriptShim::new(clock, case.scripts.clone());
+    shim.auth_reject = case.auth_reject;
+    shim.conv = case.conv;
+    let _ = take_panic();
+    let r = catch_unwind(AssertUnwindSafe(move || MysqlIntermediary::run_on_tcp(shim, stream)));
+    let outcome = match r {
+        Ok(Ok(())) => Outcome::Ok,
+        Ok(Err(ShimErr::Io(e))) => Outcome::Io { kind: e.kind(), msg: e.to_string() },
+        Ok(Err(ShimErr::Token(t))) => Outcome::Token(t),
+        Err(_) => {
+            let (file, line, msg) = take_panic().unwrap_or(("?".into(), 0, "?".into()));
+            Outcome::Panic { file, line, msg }
+        }
+    };
+    let output = client.join().map_err(|_| "client thread died".to_string())??;
+    let log = std::mem::take(&mut *log.borrow_mut());
+    Ok(TcpObs { outcome, output, log })
 }
 
 // ------------------------------------------------------------------------------------------------
